@@ -15,7 +15,7 @@ import (
 func init() {
 	register(&Spec{ID: "C13", Title: "Cancelled or closed channels never block and never deliver", Run: runC13,
 		Meta: core.Meta{
-			Explanation: "R13.20 (pairing): for every Lock/RLock call in package tds there is a deferred matching unlock on the same mutex after it, or a matching unlock on every path to every return. R13.19 = R14.9. R13.18: in package tds every way from a NextPackage/NextPackageUntil call back to the head of the loop around it passes the nil edge of a test of that call's error. R13.17 = R12.9 (no go statement on the reader goroutine's path). R13.15 = R12.7 (tdsChannelCurFreeId is only ever advanced, by the one atomic add in getValidChannelId: an id given back could be handed to a second live channel, which then replaces the first in the channel map and is the only one Conn.Close closes). R13.16: every return of NextPackageUntil on the failure edge of its NextPackage call returns that error, an fmt.Errorf wrapping it with %w, or an EEDError whose WrappedError is one of those. R13.14 (who-may-call): (*sync.RWMutex).Lock on the mutex embedded in Channel is called only by Channel.Close, SetLastPkgRx and SetLastPkgTx — a writer queued behind a parked receiver blocks every later RLock, also of calls whose context is already cancelled. Structural conditions of non-blocking behaviour; durations are not decided. R13.13: Conn.ctx is stored in NewConn only, from context.With*(…) of NewConn's own context parameter. R13.11: the receiver of every Channel.Close call in Conn.Close is traced (through the snapshot slice, appends and φs) to a range over Conn.tdsChannels, never to a per-id lookup. R13.12: in Channel.Close every return dominated by the store closed = true is dominated by delete(tdsChannels, ·). R13.1: every blocking receive on Channel.packageCh, Channel.errCh or Conn.errCh is a select that also receives from Done() of the caller's context and of the connection context, each branch returning an error that wraps the respective Err() with %w; plain receives occur only after close() of the same channel (the drain in Close). R13.2 (E-LOCK, blocking-under-lock): every send on those channels is examined — a bare send (no select with an escape) executed while the channel's RWMutex is held blocks Close (which needs the write lock); a bare send on Conn.errCh parks the reader goroutine beyond Conn.Close. Bare sends on the reader goroutine's path (functions statically reachable from (*Conn).ReadFrom) are reported as one obligation per queue, bare sends anywhere else one per function. R13.3: every *Channel method that touches the queues or Go channels tests `closed` under the channel lock first (closed edge returns ErrChannelClosed or returns without effect); Close sets closed under the write lock, removes the channel from the connection, and closes both Go channels before draining them. R13.4: in sendPackets every sendPacket call lies in the default arm of a non-blocking select over the caller's and the connection's Done(). R13.5: every path through Conn.Close calls ctxCancel() and conn.Close() and closes the snapshot of channels; Logout bounds its waits with context.WithTimeout. R13.6: the reader loop tests the connection context at its head with an exit and passes that context to Packet.ReadFrom. R13.7 (E-LOCK): no call (including deferred calls, replayed LIFO at each exit) re-acquires a sync.RWMutex the caller already holds — recursive read locking deadlocks against a pending writer. R13.9 (E-LOCK): wherever Conn.tdsChannelsLock is held (read or write) no channel send, blocking receive/select or call that transitively contains one is executed — a reader parked on one channel's full queue would otherwise hold the connection-wide lock that Close and NewChannel of every other channel need. R13.2 also covers every other send in package tds: it is accepted only as the single send on a buffered channel made by the same call (NextPackage's no-wait slot). R13.10: no branch condition in package tds is computed from len() or cap() of a Go channel. R13.8: in every *Channel method with a ctx parameter, every context argument passed on derives from that parameter.",
+			Explanation: "R13.21 = R12.25. R13.20 (pairing): for every Lock/RLock call in package tds there is a deferred matching unlock on the same mutex after it, or a matching unlock on every path to every return. R13.19 = R14.9. R13.18: in package tds every way from a NextPackage/NextPackageUntil call back to the head of the loop around it passes the nil edge of a test of that call's error. R13.17 = R12.9 (no go statement on the reader goroutine's path). R13.15 = R12.7 (tdsChannelCurFreeId is only ever advanced, by the one atomic add in getValidChannelId: an id given back could be handed to a second live channel, which then replaces the first in the channel map and is the only one Conn.Close closes). R13.16: every return of NextPackageUntil on the failure edge of its NextPackage call returns that error, an fmt.Errorf wrapping it with %w, or an EEDError whose WrappedError is one of those. R13.14 (who-may-call): (*sync.RWMutex).Lock on the mutex embedded in Channel is called only by Channel.Close, SetLastPkgRx and SetLastPkgTx — a writer queued behind a parked receiver blocks every later RLock, also of calls whose context is already cancelled. Structural conditions of non-blocking behaviour; durations are not decided. R13.13: Conn.ctx is stored in NewConn only, from context.With*(…) of NewConn's own context parameter. R13.11: the receiver of every Channel.Close call in Conn.Close is traced (through the snapshot slice, appends and φs) to a range over Conn.tdsChannels, never to a per-id lookup. R13.12: in Channel.Close every return dominated by the store closed = true is dominated by delete(tdsChannels, ·). R13.1: every blocking receive on Channel.packageCh, Channel.errCh or Conn.errCh is a select that also receives from Done() of the caller's context and of the connection context, each branch returning an error that wraps the respective Err() with %w; plain receives occur only after close() of the same channel (the drain in Close). R13.2 (E-LOCK, blocking-under-lock): every send on those channels is examined — a bare send (no select with an escape) executed while the channel's RWMutex is held blocks Close (which needs the write lock); a bare send on Conn.errCh parks the reader goroutine beyond Conn.Close. Bare sends on the reader goroutine's path (functions statically reachable from (*Conn).ReadFrom) are reported as one obligation per queue, bare sends anywhere else one per function. R13.3: every *Channel method that touches the queues or Go channels tests `closed` under the channel lock first (closed edge returns ErrChannelClosed or returns without effect); Close sets closed under the write lock, removes the channel from the connection, and closes both Go channels before draining them. R13.4: in sendPackets every sendPacket call lies in the default arm of a non-blocking select over the caller's and the connection's Done(). R13.5: every path through Conn.Close calls ctxCancel() and conn.Close() and closes the snapshot of channels; Logout bounds its waits with context.WithTimeout. R13.6: the reader loop tests the connection context at its head with an exit and passes that context to Packet.ReadFrom. R13.7 (E-LOCK): no call (including deferred calls, replayed LIFO at each exit) re-acquires a sync.RWMutex the caller already holds — recursive read locking deadlocks against a pending writer. R13.9 (E-LOCK): wherever Conn.tdsChannelsLock is held (read or write) no channel send, blocking receive/select or call that transitively contains one is executed — a reader parked on one channel's full queue would otherwise hold the connection-wide lock that Close and NewChannel of every other channel need. R13.2 also covers every other send in package tds: it is accepted only as the single send on a buffered channel made by the same call (NextPackage's no-wait slot). R13.10: no branch condition in package tds is computed from len() or cap() of a Go channel. R13.8: in every *Channel method with a ctx parameter, every context argument passed on derives from that parameter.",
 			NotDecided:  "Latencies, goroutine counts and races between cancel and delivery are not decided; schedules are not explored.",
 			Assumptions: []string{"sync.RWMutex blocks new readers behind a pending writer (documented)", "select semantics of the Go specification"},
 		}})
@@ -56,6 +56,8 @@ func runC13(r *core.Run) {
 	defer c14TimeoutArmed(r, "R13.19")
 	r.Rule("R13.20", "every lock taken in package tds is released on every exit", 10, false)
 	defer locksReleased(r, "R13.20")
+	r.Rule("R13.21", "the reader can always report an error and go on to its exit test (R12.25)", 2, false)
+	defer errQueuesBuffered(r, "R13.21")
 
 	designated := map[*types.Var]string{
 		p.Field("tds", "Channel", "packageCh"): "Channel.packageCh",
